@@ -189,8 +189,14 @@ def collect(cls, fn):
     writes, calls = [], []
     meth = fn.name
 
+    def canon(kind_, txt):
+        # names of locals and parameters are not observable: a harmless rename must not change the table
+        # (attribute paths `self.<attr>` ARE semantic and are kept verbatim)
+        return txt if kind_ in ("self", "selfField") else "<" + kind_ + ">"
+
     def add(recv_expr, field, kind):
-        writes.append((cls, meth, F.recv_kind(recv_expr), text(recv_expr), field, kind))
+        k_ = F.recv_kind(recv_expr)
+        writes.append((cls, meth, k_, canon(k_, text(recv_expr)), field, kind))
 
     def target_write(t, kind):
         if isinstance(t, ast.Attribute):
@@ -202,9 +208,9 @@ def collect(cls, fn):
             elif isinstance(base, ast.Name):
                 k = F.recv_kind(base)
                 if k != "fresh":
-                    writes.append((cls, meth, k, base.id, "[]", "elem"))
+                    writes.append((cls, meth, k, canon(k, base.id), "[]", "elem"))
             else:
-                writes.append((cls, meth, "unknown", text(base), "[]", "elem"))
+                writes.append((cls, meth, "unknown", "<unknown>", "[]", "elem"))
         elif isinstance(t, (ast.Tuple, ast.List)):
             for e in t.elts:
                 target_write(e, kind)
@@ -236,7 +242,7 @@ def collect(cls, fn):
                 elif isinstance(base, ast.Name):
                     k = F.recv_kind(base)
                     if k not in ("fresh",):
-                        writes.append((cls, meth, k, base.id, "[]", "call:" + f.attr))
+                        writes.append((cls, meth, k, canon(k, base.id), "[]", "call:" + f.attr))
             elif isinstance(f, ast.Attribute) and f.attr in ("__setattr__", "__dict__"):
                 add(f.value, "<dunder>", "setattr")
             # call sites of interest
@@ -253,7 +259,7 @@ def collect(cls, fn):
                 calls.append((cls, meth, "_reduce_to_single_density", F.recv_kind(f.value)))
         # object.__setattr__(x, ...) / x.__dict__[...] = ...
         if isinstance(node, ast.Attribute) and node.attr == "__dict__":
-            writes.append((cls, meth, F.recv_kind(node.value), text(node.value), "__dict__", "dunder"))
+            writes.append((cls, meth, F.recv_kind(node.value), canon(F.recv_kind(node.value), text(node.value)), "__dict__", "dunder"))
     # what the Gibbs constructors store as target
     if cls in ("Gibbs", "HybridGibbs") and meth == "__init__":
         for node in ast.walk(fn):
